@@ -27,7 +27,9 @@ Alphabets ==
    uptype |-> [i \in 1..36 |-> <<IF i <= 26 THEN 64 + i ELSE 21 + i>>],
    \* whole qualifiers: ka=1& k_=2& kb=3& K_=4& k1=5& KA=6&
    quals2 |-> << <<107,97,61,49,38>>, <<107,95,61,50,38>>, <<107,98,61,51,38>>, <<75,95,61,52,38>>, <<107,49,61,53,38>>, <<75,65,61,54,38>>,
-                 <<107,97,61,38>> >>]       \* ... and ka=& (an empty value between two non-empty ones)
+                 <<107,97,61,38>>,          \* ... and ka=& (an empty value between two non-empty ones),
+                 \* a=7& (sorts before "checksum") and checksum=B:0a,a:0F& (to be canonicalised among the others)
+                 <<97,61,55,38>>, <<99,104,101,99,107,115,117,109,61,66,58,48,97,44,97,58,48,70,38>> >>]
 Prefixes == [sep |-> PKG, path |-> PKG, qual |-> PKG \o <<116, 47, 110, 63>>, typed |-> PKG,
              nsseg |-> PKG \o <<116, 47>>, subseg |-> PKG \o <<116, 47, 110, 35>>, quals2 |-> PKG \o <<116, 47, 110, 63>>,
              upkeys |-> PKG \o <<116, 47, 110, 63>>, uptype |-> PKG \o <<116>>]
